@@ -110,7 +110,7 @@ def targeted(frame: str, r) -> str | None:
         if rx is None or re.match(rx, q):
             return f"{frame[:46]}{q}"
     if code == "000C" and len(pl) >= 12:  # another device id in the same role
-        d = r.choice(["04:111111", "13:111112", "34:111113", "01:145038", "07:111114", "10:111115", "04:111116"])
+        d = r.choice(["04:111111", "13:111112", "34:111113", "01:145038", "07:111114", "10:111115", "04:111116", frame[7:16], frame[7:16]])
         t, n = d.split(":")
         q = pl[:6] + f"{(int(t) << 18) + int(n):06X}" + pl[12:]
         return f"{frame[:46]}{q}"
@@ -293,6 +293,7 @@ def generate(plan) -> None:
     k["fault_free"] = ff  # = an unmodified window of one real log
     k["eavesdrop"] = r.random() < (0.6 if sc == "schema" else 0.4)
     k["max_zones"] = r.choice([1, 2, 4, 8, 12, 12, 12, 16])
+    k["read_only"] = bool(sc == "views" and r.random() < 0.15)  # the 'disable_sending' configuration
     k["time_mode"] = r.choice(["fast", "fast", "log"])
     k["gap_cap"] = r.choice([1.0, 30.0, 400.0])
     if ff:
@@ -417,7 +418,7 @@ def graph_check(ctx, gwy, where: str) -> dict:
     """Structural consistency; -> {device id: (ctl id, parent label, child_id)} for the move check."""
     place = {}
     max_zones = gwy.config.max_zones
-    seen_sensor: dict[str, str] = {}
+    seen_sensor: dict[str, list[str]] = {}
     memb: dict[str, list[str]] = {}
     for tcs in gwy.systems:
         for z in getattr(tcs, "zones", []) or []:
@@ -431,12 +432,15 @@ def graph_check(ctx, gwy, where: str) -> dict:
                 ctx.violate("C15", "graph", "zone_by_idx", f"{where}: {z.id} is in tcs.zones but zone_by_idx[{z.idx}] is another object")
             s = z.sensor
             if s is not None:
-                seen_sensor.setdefault(z.id, s.id)
+                seen_sensor.setdefault(s.id, []).append(z.id)
             for a in z.actuators:
                 memb.setdefault(a.id, []).append(z.id)
                 if a._parent is not z:
                     ctx.violate("C15", "graph", "actuator_parent", f"{where}: {a.id} is an actuator of {z.id} but its parent is "
                                 f"{getattr(a._parent, 'id', None)}")
+    for dev_id, zs in sorted(seen_sensor.items()):
+        if len(set(zs)) > 1:
+            ctx.violate("C15", "graph", "sensor_of_two_zones", f"{where}: {dev_id} is the sensor of {sorted(set(zs))}")
     for dev_id, zs in sorted(memb.items()):
         if len(set(zs)) > 1:
             ctx.violate("C15", "graph", "two_zones", f"{where}: {dev_id} is an actuator of {sorted(set(zs))}")
@@ -546,6 +550,8 @@ async def start_gateway(ctx, k, **extra):
     ser = hub.ports.get("/dev/sim0") or hub.add_port("/dev/sim0", GID)
     cfg = {"disable_discovery": True, "enforce_known_list": False, "enable_eavesdrop": bool(k("eavesdrop")),
            "max_zones": k("max_zones", 12)}
+    if k("read_only"):
+        cfg["disable_sending"] = True
     gwy = Gateway("/dev/sim0", config=cfg, **extra)
     return gwy, ser
 
@@ -594,7 +600,24 @@ async def run(ctx) -> None:
     foreign: set[int] = set()
     if k("twin"):
         def ids_of(f):
-            return {x for x in (f[7:16], f[17:26], f[27:36]) if x[2:3] == ":" and x not in ("--:------", "63:262142", "18:000730")}
+            out = {x for x in (f[7:16], f[17:26], f[27:36]) if x[2:3] == ":" and x not in ("--:------", "63:262142", "18:000730")}
+            if f[37:41] in ("000C", "1FC9"):  # these name further devices inside the payload (6-byte elements, id in the last 3)
+                pl = f[46:]
+                for i in range(0, len(pl) - 11, 12):
+                    try:
+                        v = int(pl[i + 6:i + 12], 16)
+                    except ValueError:
+                        continue
+                    if v not in (0xFFFFFF, 0x7FFFFF):
+                        out.add(f"{v >> 18:02d}:{v & 0x3FFFF:06d}")
+                if f[37:41] == "000C" and len(pl) % 12:  # the short form: idx role id, 5 bytes per further element
+                    for i in range(0, len(pl) - 9, 10):
+                        try:
+                            v = int(pl[i + 4:i + 10], 16)
+                        except ValueError:
+                            continue
+                        out.add(f"{v >> 18:02d}:{v & 0x3FFFF:06d}")
+            return out
 
         base_ids: set[str] = set()
         for o in plan.ops:
@@ -650,6 +673,8 @@ async def run(ctx) -> None:
             ctx.violate("C13", "not_receiving", tag, f"after {tag}: a packet delivered to the port is no longer handled "
                         f"(probe TRV temperature {got}, expected {temp / 100})")
             dead[0] = True
+        if k("read_only"):
+            return not dead[0]
         w0 = len(hub.writes)
         cmd = Command(f"RQ --- 18:000730 {PROBE_DST} --:------ 0016 002 00{probe_n[0] % 256:02X}")
         outcome = "ok"
